@@ -31,7 +31,8 @@ CfgRouting == {C(FALSE, FALSE, FALSE, PrimeMixed), C(FALSE, TRUE, FALSE, PrimeMi
 H(q) == hist' = hist \o q
 IdxName(i) == IF i = -1 THEN "none" ELSE ToString(i)
 
-EPost(s, r) == Post(s, r) /\ H(<<"post|" \o s \o "|" \o r>>)
+EPost(s, r, g) == PostStart(s, r, g) /\ H((IF g THEN <<"gateO|" \o PX(s, r)>> ELSE <<>>) \o <<"post|" \o s \o "|" \o r>>)
+EBcast(s, r) == HBcast(s, r) /\ H(<<"upd|" \o s \o "|" \o r>>)
 EEmit(s, r, g) == HEmit(s, r, g) /\ H(IF g THEN <<"gateA|" \o s \o "|" \o r, "emit|" \o s \o "|" \o r>> ELSE <<"emit|" \o s \o "|" \o r>>)
 ESreq(s, r, g) == HSreq(s, r, g) /\ H(IF g THEN <<"gateA|" \o s \o "|" \o r, "sreq|" \o s \o "|" \o r>> ELSE <<"sreq|" \o s \o "|" \o r>>)
 EAns(s, r) == Ans(s, r) /\ H(<<"ans|" \o s \o "|" \o r>>)
@@ -48,9 +49,9 @@ GIdx(g) == CHOOSE i \in 1..Len(GetSeq) : GetSeq[i] = g
 GetOrder(g) == \A g2 \in Gets : GIdx(g2) < GIdx(g) => x[g2].pc # "idle"
 
 GEnv ==
-  \/ \E s \in Sess, r \in Reqs : EPost(s, r) \/ EAns(s, r) \/ (\E g \in BOOLEAN : EEmit(s, r, g) \/ ESreq(s, r, g) \/ ERet(s, r, g))
+  \/ \E s \in Sess, r \in Reqs : EAns(s, r) \/ EBcast(s, r) \/ (\E g \in BOOLEAN : EPost(s, r, g) \/ EEmit(s, r, g) \/ ESreq(s, r, g) \/ ERet(s, r, g))
   \/ \E s \in Sess, g \in BOOLEAN : ESa(s, g)
-  \/ \E g \in Gets, s \in Sess, t \in Streams, i \in -1..(MaxEmit + MaxSreq + MaxSa + 2), hg \in BOOLEAN : GetOrder(g) /\ EGet(g, s, t, i, hg)
+  \/ \E g \in Gets, s \in Sess, t \in Streams, i \in -1..(MaxEmit + MaxSreq + MaxSa + 3 * MaxBc + 2), hg \in BOOLEAN : GetOrder(g) /\ EGet(g, s, t, i, hg)
   \/ \E e \in Exch : ECut(e)
   \/ \E s \in Sess : EDel(s)
   \/ EOpen
@@ -61,7 +62,8 @@ GSpec == GInit /\ [][GNext]_gvars
 \* seam level: the same environment actions, enabled only when the SDK is quiescent (named so that
 \* `-dump dot,actionlabels` labels every edge with the action and its arguments)
 Quiet == ~SdkEnabled
-SPost(s, r) == Quiet /\ EPost(s, r)
+SPost(s, r, g) == Quiet /\ EPost(s, r, g)
+SBcast(s, r) == Quiet /\ EBcast(s, r)
 SEmit(s, r, g) == Quiet /\ EEmit(s, r, g)
 SSreq(s, r, g) == Quiet /\ ESreq(s, r, g)
 SAns(s, r) == Quiet /\ EAns(s, r)
@@ -73,9 +75,9 @@ SDel(s) == Quiet /\ EDel(s)
 SOpen == Quiet /\ EOpen
 SeamNext ==
   \/ GSdk
-  \/ \E s \in Sess, r \in Reqs : SPost(s, r) \/ SAns(s, r) \/ (\E g \in BOOLEAN : SEmit(s, r, g) \/ SSreq(s, r, g) \/ SRet(s, r, g))
+  \/ \E s \in Sess, r \in Reqs : SAns(s, r) \/ SBcast(s, r) \/ (\E g \in BOOLEAN : SPost(s, r, g) \/ SEmit(s, r, g) \/ SSreq(s, r, g) \/ SRet(s, r, g))
   \/ \E s \in Sess, g \in BOOLEAN : SSa(s, g)
-  \/ \E g \in Gets, s \in Sess, t \in Streams, i \in -1..(MaxEmit + MaxSreq + MaxSa + 2), hg \in BOOLEAN : SGet(g, s, t, i, hg)
+  \/ \E g \in Gets, s \in Sess, t \in Streams, i \in -1..(MaxEmit + MaxSreq + MaxSa + 3 * MaxBc + 2), hg \in BOOLEAN : SGet(g, s, t, i, hg)
   \/ \E e \in Exch : SCut(e)
   \/ \E s \in Sess : SDel(s)
   \/ SOpen
@@ -88,6 +90,8 @@ Export == IF Quiet /\ Len(hist) >= 3
           THEN PrintT(ToJson([store |-> cfg.store, json |-> cfg.json, stateless |-> cfg.stateless, prime |-> cfg.prime, steps |-> hist]))
           ELSE TRUE
 
+NoDup == <<>>
+Dup1 == [d1 |-> "r1"]
 \* reachability witnesses (each must be VIOLATED, otherwise the configuration is vacuous)
 W_NoReplay == \A g \in Gets : recv[g] = <<>>
 W_NoConflict == \A g \in Gets : x[g].status # 409
@@ -96,5 +100,8 @@ W_NoTempReplay == \A g \in Gets : x[g].obj # "tmp"
 W_NoHeldWrite == \A s \in Sess, o \in Streams : ~(wr[s][o].pc = "cs" /\ wr[s][o].held)
 W_NoLostToCut == \A s \in Sess, t \in Streams : str[s][t].lastIdx < 0 \/ \E e \in Exch : x[e].st = t /\ x[e].s = s /\ (\E j \in 1..Len(recv[e]) : recv[e][j].idx = str[s][t].lastIdx)
 W_NoJsonBody == \A e \in Posts : \A j \in 1..Len(recv[e]) : recv[e][j].idx # -1
+W_NoDupRefused == \A e \in Posts : x[e].status # 400
+W_NoBroadcastSeen == \A e \in Exch : \A j \in 1..Len(recv[e]) : recv[e][j].pl.k # "bcast"
+W_NoHeldPost == \A e \in Posts : ~(x[e].pc = "open" /\ x[e].held)
 W_NoStandaloneNested == \A e \in Gets : \A j \in 1..Len(recv[e]) : recv[e][j].pl.o = "sa"
 =============================================================================
